@@ -8,4 +8,16 @@ ASSUMPTIONS = ["exact rational arithmetic; IEEE rounding is absorbed by the tole
 
 
 def run(ctx, proof):
-    return cells.run_cells(ctx, proof, "C03", 350, 6000, RULE)
+    res = cells.run_cells(ctx, proof, "C03", 350, 6000, RULE)
+    # mask creation from MissingVal when data enters a model (CSV reader): the missing cells are exactly the marked ones
+    import common
+    data, err = common.run_driver_json(ctx, "c17_driver.py", [ctx.scale(60, 600)], timeout=3000)
+    if data is None:
+        res.setdefault("errors", []).append(err)
+    else:
+        for f in data["oracle_failures"]:
+            if f["sig"] in ("C17:missing-cells", "C17:values"):
+                res["oracle_failures"].append(dict(f, sig="C03:csv-" + f["sig"][4:]))
+        res["evaluations"] = res.get("evaluations", 0) + data["evaluations"]
+        res.setdefault("extra", {})["csv_reads"] = data["distribution"].get("reads", 0)
+    return res
